@@ -54,7 +54,7 @@ impl Prop for C17 {
                 let look = special_lookalikes(&special);
                 let text = prop_oneof![5 => gen::text_with(look, 6), 1 => Just(String::new()), 2 => gen::clean_text(false, 4, 4)];
                 (
-                    proptest::collection::vec((text, any::<u8>()), 1..=6),
+                    prop_oneof![12 => proptest::collection::vec((text.clone(), any::<u8>()), 1..=6), 1 => proptest::collection::vec((text, any::<u8>()), 7..=20)],
                     byte_kind(),
                     any::<bool>(),
                     0u8..4,
